@@ -356,14 +356,14 @@ func runC17(c *Ctx) {
 	dupCheck(regMethod, "duplicate-method-rejected", func(lk *ssa.Lookup) bool { return lk.CommaOk && LoadedField(lk.X) == methodsFld })
 	dupCheck(insert, "duplicate-route-rejected", func(lk *ssa.Lookup) bool {
 		n, ok := lk.X.Type().(*types.Named)
-		return ok && n.Obj().Name() == "routeMethods"
+		return ok && N(n.Obj()) == "routeMethods"
 	})
 	// (v) selector that applied to nothing, flag reset per rule
 	{
 		ei := errorResultIndex(regRules.Signature)
 		var selCall *ssa.Call
 		for _, call := range Calls(regRules) {
-			if cv, ok := call.(*ssa.Call); ok && cv.Call.StaticCallee() != nil && cv.Call.StaticCallee().Name() == "GetSelector" {
+			if cv, ok := call.(*ssa.Call); ok && cv.Call.StaticCallee() != nil && N(cv.Call.StaticCallee()) == "GetSelector" {
 				if selCall == nil || cv.Block().Dominates(selCall.Block()) {
 					selCall = cv
 				}
@@ -519,7 +519,7 @@ func runC17(c *Ctx) {
 			}
 			for _, call := range Calls(mfn) {
 				cv, ok := call.(*ssa.Call)
-				if !ok || !cv.Call.IsInvoke() || cv.Call.Method.Name() != "IsList" {
+				if !ok || !cv.Call.IsInvoke() || N(cv.Call.Method) != "IsList" {
 					continue
 				}
 				for _, ref := range *cv.Referrers() {
@@ -541,7 +541,7 @@ func runC17(c *Ctx) {
 		// locate: FullName call (method name), the recording MapUpdate
 		var nameCall *ssa.Call
 		for _, call := range Calls(regRules) {
-			if cv, ok := call.(*ssa.Call); ok && cv.Call.IsInvoke() && cv.Call.Method.Name() == "FullName" {
+			if cv, ok := call.(*ssa.Call); ok && cv.Call.IsInvoke() && N(cv.Call.Method) == "FullName" {
 				nameCall = cv
 			}
 		}
@@ -640,7 +640,7 @@ func runC17(c *Ctx) {
 				var out []ssa.CallInstruction
 				for _, call := range Calls(ctor) {
 					cc := call.Common()
-					if cc.IsInvoke() && cc.Method.Name() == "applyToService" && len(cc.Args) == 1 && cc.Args[0] == ssa.Value(al) {
+					if cc.IsInvoke() && N(cc.Method) == "applyToService" && len(cc.Args) == 1 && cc.Args[0] == ssa.Value(al) {
 						out = append(out, call)
 					}
 				}
@@ -702,7 +702,7 @@ func runC17(c *Ctx) {
 						fresh = true
 					}
 				}
-				c.Check(fresh, "C17.4", FuncName(fn), "setter-replaces-map:"+fld.Name(), mu.Pos(),
+				c.Check(fresh, "C17.4", FuncName(fn), "setter-replaces-map:"+N(fld), mu.Pos(),
 					"the option setter stores a fresh map before filling it", "the option setter writes into the existing (default, shared) map: one service's option mutates the defaults of all services")
 			})
 		}
